@@ -58,6 +58,16 @@ def run(args):
          "lib": "pub fn lf() { let g = fn() -> int { 2 }; let h = fn() -> int { 3 }; println(g, h); }\nfn main() { }\n",
          "kit": "let names = [\"a\"];\npub fn kf() { let k = fn(a: int) -> int { a }; println(k, names); }\nfn main() { }\n"},
     ]
+    # many functions in several modules + a function literal that uses a local of its maker (a sort or a map over the
+    # functions of the whole program decides which slots it reads)
+    big = {"main": "".join("import m%d_f0 from m%d;\n" % (k, k) for k in range(4)) +
+           "fn main() { let a = 1; let x = 5; let f = fn() -> int { x + 1 }; println(f(), a); " +
+           " ".join("m%d_f0();" % k for k in range(4)) + " let y = 7; let g = fn() -> int { y * 2 }; println(g(), x, a); }\n"}
+    for k in range(4):
+        big["m%d" % k] = "let base = %d;\n" % (k * 10) + "".join(
+            "%sfn m%d_f%d() { let p = %d; let q = base + p; let h = fn() -> int { q + 1 }; println(\"m%d.f%d\", h(), p); %s}\n" %
+            ("pub " if j == 0 else "", k, j, j, k, j, ("m%d_f%d(); " % (k, j + 1)) if j < 4 else "") for j in range(5)) + "fn main() { }\n"
+    multi.append(big)
     mreqs = []
     for mods in multi:
         for b in ("vm", "tree"):
